@@ -5,6 +5,7 @@ import (
 	"compress/gzip"
 	"context"
 	"fmt"
+	"google.golang.org/protobuf/types/known/wrapperspb"
 	"io"
 	"math"
 	"net/http"
@@ -453,6 +454,8 @@ func streamNeg(c *Ctx) {
 	if replayOp != "" {
 		if strings.HasPrefix(replayOp, "neg") {
 			negOp(c, replayOp)
+		} else if strings.HasPrefix(replayOp, "env.") {
+			envOp(c, replayOp)
 		} else {
 			cminOp(c, replayOp)
 		}
@@ -534,6 +537,7 @@ func streamNeg(c *Ctx) {
 	failingCompressorProbe(c, "neg-failed-compression-undecodable")
 	hugeLimitLosslessProbe(c)
 	forwardedEncodingProbe(c)
+	emptyCompressedProbe(c)
 }
 
 // hugeLimitLosslessProbe: every compressed message decompresses to the original bytes - also
@@ -902,4 +906,61 @@ func min(a, b int) int {
 		return a
 	}
 	return b
+}
+
+// emptyCompressedProbe (round 13, C08-ms): an empty message may travel with the compressed flag
+// set (some peers flag every message of a compressed stream); it is the zero value, like the same
+// empty message without the flag - also for codecs that, like JSON, cannot decode zero bytes.
+func emptyCompressedProbe(c *Ctx) {
+	// (a) the envelope reader itself, tied to the model (strict codec: no value encodes as zero bytes)
+	z := rleCompress([]byte{5, 5, 5, 5})
+	flats := [][]byte{
+		frame(1, nil),
+		frame(0, nil),
+		append(frame(1, nil), frame(0, []byte{5})...),
+		append(append(frame(0, []byte{5}), frame(1, nil)...), frame(1, z)...),
+		append(append(frame(1, z), frame(1, nil)...), frame(1, nil)...),
+		append(frame(1, nil), frame(2, []byte("{}"))...),
+		append(frame(1, nil), frame(3, nil)...),
+	}
+	for _, comp := range []int{0, 1} {
+		for _, flat := range flats {
+			for _, tail := range []string{"eof", "ueof"} {
+				op := fmt.Sprintf("env.recv comp=%d max=0 tail=%s flat=%s seg=- wd=0 strict=1", comp, tail, hx(flat))
+				ans := envOp(c, op)
+				c.Count("empty-compressed-env")
+				if flat[0] <= 1 && bytes.Equal(flat[1:5], []byte{0, 0, 0, 0}) && !strings.HasPrefix(ans, "m:-") {
+					c.Fail("neg-empty-compressed", op, ans, "an empty message (flags 0 or 1, length 0) is the zero value whatever the codec")
+				}
+			}
+		}
+	}
+	// (b) a real handler with the JSON codec: [compressed flag, empty][plain "5"]
+	for _, proto := range []string{"connect", "grpc", "grpcweb"} {
+		var got []string
+		h := connect.NewClientStreamHandler("/s/m", func(ctx context.Context, s *connect.ClientStream[wrapperspb.Int64Value]) (*connect.Response[wrapperspb.Int64Value], error) {
+			for s.Receive() {
+				got = append(got, fmt.Sprint(s.Msg().GetValue()))
+			}
+			if err := s.Err(); err != nil {
+				got = append(got, "err:"+connect.CodeOf(err).String())
+			}
+			return connect.NewResponse(&wrapperspb.Int64Value{}), nil
+		})
+		desc := proto + ": client-stream handler, JSON codec, gzip announced, request [flags=1 len=0][flags=0 \"5\"]"
+		c.Count("empty-compressed-handler")
+		ans := safely(func() string {
+			body := append(frame(1, nil), frame(0, []byte(`"5"`))...)
+			req := httptest.NewRequest(http.MethodPost, "/s/m", bytes.NewReader(body))
+			req.ProtoMajor, req.ProtoMinor, req.Proto = 2, 0, "HTTP/2.0"
+			req.Header.Set("Content-Type", ctFor(proto, "stream", "json"))
+			encH, _ := encHeaderFor(proto, "stream")
+			req.Header.Set(encH, "gzip")
+			h.ServeHTTP(httptest.NewRecorder(), req)
+			return strings.Join(got, " ")
+		})
+		if ans != "0 5" {
+			c.Fail("neg-empty-compressed", desc, ans, "the handler receives the zero value and then 5")
+		}
+	}
 }
